@@ -131,7 +131,7 @@ def canonical_sav(text):
     return d
 
 
-def run_guesser(tdir, argv, quit_after=None, session='default_run', keep_modules=False, keys=None):
+def run_guesser(tdir, argv, quit_after=None, session='default_run', keep_modules=False, keys=None, queue_cap=None):
     """One 'process' of pcfg_guesser in the scratch tree `tdir`."""
     import threading as real_threading
     if not keep_modules:
@@ -153,6 +153,15 @@ def run_guesser(tdir, argv, quit_after=None, session='default_run', keep_modules
                     drv.cs = cs
                     cs.time = _Clock(real_time, drv)
                     sys.modules['lib_guesser.status_report'].time = _Clock(real_time, drv)
+                if queue_cap is not None:
+                    # PcfgQueue.max_queue_size (50000 in the code, "used for memory management") scaled down to the size of the harness rulesets
+                    Q = sys.modules['lib_guesser.priority_queue'].PcfgQueue
+                    q_init = Q.__init__
+
+                    def q_init_capped(self, *a, **kw):
+                        q_init(self, *a, **kw)
+                        self.max_queue_size = queue_cap
+                    Q.__init__ = q_init_capped
                 G = gm.PcfgGrammar
                 orig_print = G.print_guess
                 orig_create = G.create_guesses
